@@ -12,7 +12,7 @@ from ..core import AnalysisError, own_nodes, norm, parents
 from ..effects import Effects, Resolver
 from .. import rules, estyping
 
-LEVEL_TEXT = ('static analysis: (D1) do_segmetrics interpreted with tagged statistics: every location statistic is applied to exactly the bins '
+LEVEL_TEXT = ('static analysis: (D1) do_segmetrics interpreted with tagged statistics, for every statistic requested at once and for three smaller requests (one / two statistics of a class: a one-shot iterator shared by two statistics serves only the first): every location statistic is applied to exactly the bins '
               "iter_ranges_of(segments, 'log2', 'outer', keep_empty) yields for that segment, every spread statistic to those bins minus the "
               "segment's log2, every interval to all of the segment's bins and their weights selected by the bins' own index (a filtered subset "
               'is a wrong operand); the statistic names are bound to the named functions, each CLI flag names an implemented statistic of its '
